@@ -47,7 +47,7 @@ struct Node : public MockN2k {
     for (int i = 0; i < MaxN2kCANMsgs; i++) {
       auto &S = N2kCANMsgBuf[i];
       if (S.FreeMsg) snprintf(b, sizeof b, "s%d:free ", i);
-      else snprintf(b, sizeof b, "s%d:%d:%lu:%u:%u:%u:%u:%d:%u:%u ", i, S.N2kMsg.IsTPMessage() ? 1 : 0, S.N2kMsg.PGN, S.N2kMsg.Source, S.N2kMsg.Destination, S.LastFrame, S.CopiedLen, S.N2kMsg.DataLen, S.TPRequireCTS, S.TPMaxPackets);
+      else snprintf(b, sizeof b, "s%d:%d:%lu:%u:%u:%u:%u:%d:%u:%u:%u ", i, S.N2kMsg.IsTPMessage() ? 1 : 0, S.N2kMsg.PGN, S.N2kMsg.Source, S.N2kMsg.Destination, S.LastFrame, S.CopiedLen, S.N2kMsg.DataLen, S.TPRequireCTS, S.TPMaxPackets, (unsigned)((uint32_t)g_now - (uint32_t)S.N2kMsg.MsgTime));   // last field: age of the slot in ms
       r += b;
     }
     if (!r.empty()) r.pop_back();
@@ -689,6 +689,34 @@ static void generate(Rng &R, const char *fl) {
   }
   C.count("exhaustive_fault_positions", 1);
   C.sample("exhaustive: every fault kind (drop/dup/reorder of RTS, CTS, DT, ACK; abort; silence; late; hold; foreign control) at every packet position of 16/30/50-byte transfers, both roles, each followed by a clean transfer after 1.3 s");
+  // (4c) slot pressure: every slot but one holds an unfinished fast packet of another source, a transport reception that lasts
+  //      longer than the 100 ms slot timeout (every packet gap below it) runs in the remaining slot, and in the middle a further
+  //      source starts a fast packet: the oldest idle slot may be recycled, never the live transfer
+  int np = tierN(60, 600);
+  for (int i = 0; i < np; i++) {
+    int nslots = (int)R.range(2, 6); resetNode(R, fl, "reset", 1, nslots, R.chance(1, 2) ? 1 : 2, 40);
+    unsigned me = nodeAddr(0, 0); bool bam = R.chance(1, 2); unsigned to = bam ? 255 : me;
+    int len = R.chance(1, 3) ? 223 : (R.chance(1, 2) ? 70 : (int)R.range(30, 223)); std::vector<unsigned char> pl = payload(R, len); int npk = (len + 6) / 7;
+    unsigned long pgn = pickPgn(R); bool tpFirst = R.chance(2, 3);
+    auto fillers = [&](int n, unsigned base) { for (int f = 0; f < n; f++) { unsigned char b[8] = {(unsigned char)(32 * (f % 8)), 43, 1, 2, 3, 4, 5, 6}; X(rxLine("rx", refId(6, 129029UL, base + f, 255), b, 8)); if (R.chance(1, 2)) T(R.below(4)); } };
+    if (!tpFirst) { fillers(nslots - 1, 70); T(R.below(10)); }
+    if (bam) rxBAM("rx", PEER, (unsigned)len, (unsigned)npk, pgn); else rxRTS("rx", PEER, me, (unsigned)len, (unsigned)npk, pgn);
+    int window = npk;
+    if (!bam) { const Frame *c = seenCM(me, PEER, 17); if (!c) continue; window = c->buf[1]; }
+    if (tpFirst) { T(R.below(5)); fillers(nslots - 1, 70); }
+    int inWin = 0; uint64_t t0 = g_now; int intruders = 0; bool ok = true;
+    for (int seq = 1; seq <= npk && ok; seq++) {
+      T(R.chance(1, 2) ? R.range(20, 60) : R.range(5, 99));
+      if (g_now - t0 > 100 && intruders < 2 && R.chance(1, 2)) { unsigned char b[8] = {0, 30, 9, 9, 9, 9, 9, 9}; X(rxLine("rx", refId(6, 129540UL, 90 + intruders, 255), b, 8)); intruders++; if (R.chance(1, 3)) X("st"); }
+      rxDT("rx", PEER, to, (unsigned)seq, pl); inWin++;
+      if (!bam) {
+        if (seenCM(me, PEER, 255)) ok = false;
+        else if (seq < npk && inWin >= window) { const Frame *c = seenCM(me, PEER, 17); if (!c) ok = false; else { window = c->buf[1]; inWin = 0; } }
+      }
+    }
+    X("st"); C.count("gen_slot_pressure");
+  }
+  C.sample("slot pressure: all slots but one hold unfinished fast packets of other sources, a BAM / RTS-CTS reception lasting > 100 ms (gaps < 100 ms) must survive further sources starting fast packets (MsgTime refresh per data packet)");
   // (5) concurrent sessions: several sources towards the node, the node's own transfers, fast-packet traffic, small slot counts
   int nc = tierN(40, 1500);
   for (int i = 0; i < nc; i++) {
